@@ -1,4 +1,5 @@
 use std::collections::HashMap;
+use std::convert::TryFrom;
 
 use itertools::Itertools;
 
@@ -259,21 +260,29 @@ impl ColumnParsing {
                             let value = ColumnParsing::extract_using_regex(&ValueType::Int, parsing_input, pattern, Value::Null);
 
                             if let Value::Int(value_i64) = value {
-                                match index {
-                                    0 => { year = value_i64 as i32 },
-                                    1 => { month = value_i64 as u32 },
-                                    2 => { day = value_i64 as u32 },
-                                    3 => { hour = value_i64 as u32 },
-                                    4 => { minute = value_i64 as u32 },
-                                    5 => { second = value_i64 as u32 }
+                                // A part that does not fit its range is out of range (it must not wrap around into a valid one)
+                                let part_u32 = u32::try_from(value_i64).ok();
+                                let valid = match index {
+                                    0 => { i32::try_from(value_i64).map(|value| { year = value; }).is_ok() },
+                                    1 => { part_u32.map(|value| { month = value; }).is_some() },
+                                    2 => { part_u32.map(|value| { day = value; }).is_some() },
+                                    3 => { part_u32.map(|value| { hour = value; }).is_some() },
+                                    4 => { part_u32.map(|value| { minute = value; }).is_some() },
+                                    5 => { part_u32.map(|value| { second = value; }).is_some() },
                                     6 => {
-                                        if column.options.microseconds {
-                                            microsecond = value_i64 as u32;
+                                        let value = if column.options.microseconds {
+                                            part_u32
                                         } else {
-                                            microsecond = value_i64 as u32 * 1000;
-                                        }
+                                            part_u32.and_then(|value| value.checked_mul(1000))
+                                        };
+
+                                        value.map(|value| { microsecond = value; }).is_some()
                                     }
-                                    _ => {}
+                                    _ => true
+                                };
+
+                                if !valid {
+                                    return column.default_value();
                                 }
                             } else {
                                 if index == 1 {
